@@ -419,7 +419,17 @@ func (st *State) catAll(v Val) Term {
 	args = append(args, eh, v.L[1], v.L[2])
 	sorts = append(sorts, eh.Sort, SInt, SInt)
 	f := st.ctx.declareFun("catAllOf", sorts, SInt)
-	return app(SInt, f, args...)
+	t := app(SInt, f, args...)
+	// definitional unfolding (one step) for a symbolic length n: catAll of no slices is empty, catAll of
+	// n > 0 slices is catAll of the first n-1 followed by the content of the last one. This is what lets
+	// a loop invariant over catAll(s[0:i]) be carried from i to i+1.
+	n := v.L[2]
+	prevArgs := append(append([]Term{}, args[:len(args)-1]...), Sub(n, I(1)))
+	prev := app(SInt, f, prevArgs...)
+	p := &PtrInfo{Kind: pkElem, Root: sl.Elem(), Ref: v.L[0], Idx: Add(v.L[1], Sub(n, I(1)))}
+	last := st.bytesOf(st.loadQuiet(p, nil))
+	st.assumeOnce(Ite(Le(n, I(0)), Eq(t, st.bempty()), Eq(t, st.bcat(prev, last))))
+	return t
 }
 
 // ---------------------------------------------------------------------------
